@@ -6,6 +6,7 @@ import (
 
 	"github.com/dgraph-io/badger/v4"
 
+	"github.com/oasisprotocol/oasis-core/go/common/verifhook"
 	"github.com/oasisprotocol/oasis-core/go/storage/mkvs/db/api"
 	"github.com/oasisprotocol/oasis-core/go/storage/mkvs/node"
 )
@@ -67,6 +68,7 @@ func (d *badgerNodeDB) StartMultipartInsert(version uint64) error {
 
 	d.meta.setMultipart(version, multiMeta)
 	d.meta.commit(tx)
+	verifhook.At("pathbadger.StartMultipart.afterMetaCommit")
 
 	d.multipartVersion = version
 	d.multipartMeta = multiMeta
@@ -149,11 +151,13 @@ func (d *badgerNodeDB) cleanMultipartLocked(removeNodes bool) error {
 	if err := batch.Flush(); err != nil {
 		return err
 	}
+	verifhook.At("pathbadger.cleanMultipart.afterBatchFlush")
 
 	metaTx := d.db.NewTransactionAt(tsMetadata, true)
 	defer metaTx.Discard()
 	d.meta.setMultipart(0, nil)
 	d.meta.commit(metaTx)
+	verifhook.At("pathbadger.cleanMultipart.afterMetaCommit")
 
 	d.multipartVersion = multipartVersionNone
 	d.multipartMeta = nil
